@@ -163,3 +163,50 @@ func VH_C03_combinators() {
 	zzvrt.Cover("all-absent", !x.A.Exists && !x.B.IsRight && !x.D.IsRight && !hasE && !hasF)
 	zzvrt.ObserveInt("bits", c.BitSize())
 }
+
+// plain Go kinds through the reflection codec: uintN/intN big-endian of the Go width, bool one bit,
+// byte arrays and slices verbatim
+type vPlain struct {
+	A uint8
+	B uint16
+	C uint32
+	D uint64
+	E int8
+	F int16
+	G int32
+	H int64
+	I bool
+	J [3]byte
+}
+
+func VH_C03_plain_kinds() {
+	x := vPlain{A: zzvrt.NondetByte("a"), B: zzvrt.NondetU16("b"), C: zzvrt.NondetU32("c"), D: zzvrt.NondetU64("d"),
+		E: int8(zzvrt.NondetByte("e")), F: int16(zzvrt.NondetU16("f")), G: zzvrt.NondetI32("g"), H: zzvrt.NondetI64("h"), I: zzvrt.NondetBool("i")}
+	for k := 0; k < 3; k++ {
+		x.J[k] = zzvrt.NondetByte("j")
+	}
+	spec := &vSpecBits{}
+	spec.uint(uint64(x.A), 8)
+	spec.uint(uint64(x.B), 16)
+	spec.uint(uint64(x.C), 32)
+	spec.uint(x.D, 64)
+	spec.uint(uint64(uint8(x.E)), 8)
+	spec.uint(uint64(uint16(x.F)), 16)
+	spec.uint(uint64(uint32(x.G)), 32)
+	spec.uint(uint64(x.H), 64)
+	spec.bit(x.I)
+	for k := 0; k < 3; k++ {
+		spec.uint(uint64(x.J[k]), 8)
+	}
+	c := boc.NewCell()
+	err := Marshal(c, x)
+	zzvrt.Assert("encode-ok", err == nil)
+	vAssertCellIs(c, spec, "spec")
+	var y vPlain
+	err = Unmarshal(c, &y)
+	zzvrt.Assert("decode-ok", err == nil)
+	zzvrt.Assert("roundtrip", y == x)
+	zzvrt.Assert("consumed", c.BitsAvailableForRead() == 0)
+	zzvrt.Cover("high-bits", x.B >= 0x8000 && x.F < 0 && x.H < 0)
+	zzvrt.ObserveU64("d", y.D)
+}
